@@ -161,6 +161,8 @@ type Spec struct {
 	Hardfork config.HardforkConfig
 	// VotingReward: behave like a DPoS node (in-memory voting power ranking + voting reward)
 	VotingReward bool
+	// RealDPoS: attach the real DPoS consensus (status, LIB, producer set) instead of the permissive stub
+	RealDPoS bool
 }
 
 type Node struct {
@@ -169,6 +171,17 @@ type Node struct {
 	Hub  *Hub
 	Spec *Spec
 	CC   *StubConsensus
+	DPoS *dpos.DPoS
+	// loader is the DPoS boot loader of this node (a package global in dpos): Enter puts it back
+	loader interface{}
+}
+
+// Enter makes this node the one the process-wide DPoS boot loader belongs to. Must be called
+// before a node with the real DPoS consensus is driven when several such nodes exist.
+func (n *Node) Enter() {
+	if n.loader != nil {
+		dpos.VerifSetLoader(n.loader)
+	}
 }
 
 var dirSeq int
@@ -250,7 +263,18 @@ func Open(spec *Spec, dir string) (*Node, error) {
 	cs := chain.NewChainService(cfg)
 	n := &Node{CS: cs, Dir: dir, Hub: newHub(), Spec: spec, CC: &StubConsensus{}}
 	n.Hub.Register(cs)
-	cs.SetChainConsensus(n.CC)
+	if spec.RealDPoS {
+		d, err := dpos.VerifNew(cs)
+		if err != nil {
+			cs.VerifStop()
+			return nil, err
+		}
+		n.DPoS = d
+		n.loader = dpos.VerifLoader()
+		cs.SetChainConsensus(d)
+	} else {
+		cs.SetChainConsensus(n.CC)
+	}
 	return n, nil
 }
 
